@@ -364,6 +364,14 @@ def filter_order_rule(ctx, res, rule: str, func_qual: str) -> None:
                 out.add("accept" if r.value.value else "reject")
         return out
 
+    if not any(call_name(c) == "Finder" for c in calls_in(f.node)):
+        # the finder may be built in a private function of the module that this one calls (`_first_occurrence_from_line(...)`): look there
+        called = {c.func.id for c in calls_in(f.node) if isinstance(c.func, ast.Name)}
+        for g in idx.functions.values():
+            if g.unit is f.unit and g.cls is None and g.parent is None and g.name in called and g.name.startswith("_") \
+                    and any(call_name(c) == "Finder" for c in calls_in(g.node)):
+                f = g
+                break
     local_defs = {n.name: n for n in ast.walk(f.node) if isinstance(n, ast.FunctionDef) and n is not f.node}
     local_vars = {}
     for n in walk_local(f.node):
